@@ -291,7 +291,7 @@ Definition extras (fs : list (bytes * bytes)) : list bytes :=
 
 Definition allowed_errs_fields (fs : list (bytes * bytes)) : list werr :=
   match key_defects fs with
-  | _ :: _ as ds => ds
+  | d :: ds => d :: ds
   | [] =>
     if negb (beq (str_field k_jsonrpc fs) version) then [e_bad_version]
     else if negb (beq (str_field k_method fs) []) && (has_error_value fs || is_some (lookup k_result fs)) then [e_mixed]
